@@ -17,7 +17,7 @@ inductive Class where
   | commutativeAccumulate   -- body only folds with a commutative/idempotent operation (max, min, set insert, pool release)
   | collectThenSort         -- keys are collected and sorted (or inserted into an ordered set) before any use
   | independentTasks        -- one task per entry, tasks write pairwise distinct outputs
-  | firstMatch              -- returns on the first matching entry: order matters only if two entries match
+  | uniqueMatch             -- every entry is examined and two matching entries are refused (panic): no order in the result
 deriving DecidableEq, Repr
 
 /-- every map iteration of the code base, with the reason it cannot influence the output -/
@@ -35,9 +35,9 @@ def classified : List (String × Class) := [
   ("protogen.Generator.processSecondPass: range gen.cachedImporters", .independentTasks),
   ("protogen.bookExporter.export: range se.Imports", .collectThenSort),
   ("protogen.bookExporter.export: range x.ProtoFileOptions", .collectThenSort),
-  ("strcase.Context.rangeAcronym: range ctx.acronyms", .firstMatch),
+  ("strcase.Context.rangeAcronym: range ctx.acronyms", .uniqueMatch),
   ("strcase.New: range acronyms", .commutativeAccumulate),
-  ("xfs.RewriteSubdir: range subdirRewrites", .firstMatch)
+  ("xfs.RewriteSubdir: range subdirRewrites", .collectThenSort)   -- since fix D10 (Props.C04Rewrite)
 ]
 
 /-- **C04_inventory**: the map iterations found in the current source are exactly the classified ones -/
